@@ -1,4 +1,6 @@
 import PPLV.Product.Proofs
+import PPLV.Product.ProofsJudge
+import PPLV.Lin.Decide
 import Mathlib.Data.Set.Lattice
 
 /-!
@@ -95,6 +97,44 @@ theorem any_component_sound (R : Policy) (A B : RDom) (q1 : A.D → Bool) (q2 : 
     (h1 : ∀ a, q1 a = true → P (Γ A a)) (h2 : ∀ b, q2 b = true → P (Γ B b))
     (x : Prod A B) (h : anyComponent A B R q1 q2 x = true) : P (Γ A x.d1 ∩ Γ B x.d2) :=
   anyComponent_sound A B R q1 q2 P (fun S T hST hT => hP S T (fun p hp => hST p hp) hT) h1 h2 x h
+
+/-- `difference_assign` is component-wise, `(d₁ ∖ y₁, d₂ ∖ y₂)`: that is **not** an
+    over-approximation of the difference of the intersections (known finding KF-C10-1; on the real
+    library: `x = (ℝ, ℤ)`, `y = ([0,+∞), ℝ)` gives the empty product, the negative integers are lost). -/
+theorem difference_componentwise_fails :
+    ¬ ∀ d1 d2 y1 y2 : Set Pt, (d1 ∩ d2) \ (y1 ∩ y2) ⊆ (d1 \ y1) ∩ (d2 \ y2) := by
+  intro h
+  have hx : (fun _ => 0 : Pt) ∈ (Set.univ ∩ Set.univ : Set Pt) \ (Set.univ ∩ ∅) :=
+    ⟨⟨trivial, trivial⟩, fun hx => hx.2⟩
+  have := h Set.univ Set.univ Set.univ ∅ hx
+  exact this.1.2 trivial
+
+/-! ## the judge used on the real library's output
+
+For pairs both of whose components are constraint systems the driver decides "components shrink"
+and "intersection unchanged" with the K1 procedures on the concatenated systems (sound and
+complete: `PPLV.Lin.subsetB_iff`); for pairs with a proper `Grid` it evaluates the printed
+constraints and congruences at enumerated lattice points with the evaluators below. -/
+
+open PPLV.Lin in
+/-- both components constraint systems: "no common point lost" is decided exactly -/
+theorem judge_meet_subset_iff (n : Nat) (r1 r2 o1 o2 : List Con)
+    (hr : WF n (r1 ++ r2)) (ho : WF n (o1 ++ o2)) :
+    subsetB n (r1 ++ r2) (o1 ++ o2) = true ↔ sem r1 ∩ sem r2 ⊆ sem o1 ∩ sem o2 := by
+  rw [subsetB_iff n _ _ hr ho]
+  have h : ∀ a b : List Con, sem (a ++ b) = sem a ∩ sem b := by
+    intro a b; ext x; exact Sat_append a b x
+  rw [h, h]
+
+open PPLV.Lin in
+/-- the point evaluators decide membership of a rational point -/
+theorem judge_point_iff (cs : List Con) (c : Cgr) (x : List Rat) :
+    (allHold cs x = true ↔ Sat cs (toPt x)) ∧
+    (cgrHolds c x = true ↔ ∃ z : Int, dot c.coeffs (toPt x) + (c.k : Rat) = (z : Rat) * (c.m : Rat)) :=
+  ⟨allHold_iff cs x, cgrHolds_iff c x⟩
+
+example : cgrHolds ⟨3, -1, [1, 1]⟩ [2, 2] = true ∧ cgrHolds ⟨3, -1, [1, 1]⟩ [2, (1 : Rat) / 2] = false
+    ∧ cgrHolds ⟨0, -4, [1, 1]⟩ [2, 2] = true := by decide +kernel
 
 /-! ## non-vacuity: a tiny concrete component domain (integer intervals with a congruence on axis 0) -/
 
